@@ -46,12 +46,23 @@ func (e *Enc) loopHeader(b *ssa.BasicBlock, li *loopInfo, st *State) {
 		ws.roots["lockstate"] = true
 	}
 	if ws.all {
-		e.havocAll(st, "loop body")
-		if ws.ghost["held:*"] {
-			only := newWriteSet()
-			only.roots["lockstate"] = true
-			e.havocRoots(st, only, false)
+		if ws.storeAll {
+			// a store whose target cannot be resolved: nothing local may be kept
+			e.havocAllNoPreserve(st)
+		} else {
+			e.havocAll(st, "loop body")
 		}
+		// the global havoc keeps the objects private to this call; forget what the
+		// loop body itself writes to them
+		only := newWriteSet()
+		for r := range ws.roots {
+			only.roots[r] = true
+		}
+		if ws.ghost["held:*"] {
+			only.roots["lockstate"] = true
+		}
+		e.havocRoots(st, only, false)
+		e.havocKeys(st, ws, li)
 	} else {
 		e.havocRoots(st, ws, false)
 		e.havocKeys(st, ws, li)
@@ -388,6 +399,7 @@ func (e *Enc) checkBackEdges(b *ssa.BasicBlock, st *State) {
 }
 
 type writeSet struct {
+	storeAll bool // a store with an unresolvable target
 	all   bool
 	roots map[string]bool // heap roots (typeKey) possibly written
 	ghost map[string]bool
@@ -407,6 +419,9 @@ func newWriteSet() *writeSet {
 func (w *writeSet) add(o *writeSet) {
 	if o.all {
 		w.all = true
+	}
+	if o.storeAll {
+		w.storeAll = true
 	}
 	for k, kw := range o.keys {
 		cur := w.keys[k]
@@ -526,6 +541,7 @@ func (e *Enc) instrWrites(ins ssa.Instruction) *writeSet {
 				ws.roots[typeKey(r)] = true
 			} else {
 				ws.all = true
+				ws.storeAll = true
 			}
 		}
 	case *ssa.MapUpdate:
@@ -936,6 +952,19 @@ func (e *Enc) havocAll(st *State, why string) {
 	st.epoch = e.newEpoch()
 	e.bumpAllVer(st)
 	e.preserveLocals(old, st, nil)
+}
+
+func (e *Enc) havocAllNoPreserve(st *State) {
+	old := st.heap
+	st.heap = map[string]string{}
+	for k, v := range old {
+		if strings.HasPrefix(k, "lockstate/") {
+			st.heap[k] = v
+		}
+	}
+	st.rootEpoch = map[string]int{}
+	st.epoch = e.newEpoch()
+	e.bumpAllVer(st)
 }
 
 func (e *Enc) havocRoots(st *State, ws *writeSet, preserve bool) {
